@@ -9,10 +9,10 @@ SPEC = dict(
     level_text=("Partial. Proved for every queue/forcing: every prefix size of an ordered input is released by some tape; every "
                 "split of an unordered input into an in-order sub-multiset and the rest is released by some tape (the min_index "
                 "pruning loses no subset) and, on distinct items, a released batch determines the whole call sequence that produced it (each subset is visited exactly once); every combination of per-key prefixes of a keyed ordered input and of per-key sub-multisets of a keyed unordered input; every buffered "
-                "snapshot version of a singleton and the unchanged snapshot; every single release (and silence) of TopLevelStreamOrderHook and either front of TopLevelMergeOrderedHook; every ready tick/observation is picked by the "
+                "snapshot version of a singleton and the unchanged snapshot; every single release (and silence) of TopLevelStreamOrderHook and either front of TopLevelMergeOrderedHook; every non-empty subset selection of TopLevelFoldHook (released in some order); every ready tick/observation is picked by the "
                 "scheduler's draw; a single-hook tick/observation resolves to that hook's forced decision space. "
                 "Stated but not proved (def ...Statement): run_hooks reaches every multi-hook decision vector with a non-trivial "
-                "component; completeness for KeyedSingleton, the keyed TopLevel* hooks, the fold hook's subset selection and its Fisher-Yates "
+                "component; completeness for KeyedSingleton, the keyed TopLevel* hooks, the fold hook's Fisher-Yates "
                 "permutation. Tie: for small queues of every hook kind the real hook is run under bolero's real exhaustive "
                 "driver until it reports the space exhausted; the set of (released, remaining) outcomes and the number of "
                 "executions are compared with the model's (specified sets for the proved kinds, cross-checked against a "
